@@ -333,6 +333,14 @@ def run_unit(scratch, prop, unit, exp, tier):
     if hard:
         res["undecided"].append("engine V [%s]: Verus rejected the extracted file before/outside verification (not a property verdict):\n  " % unit + "\n  ".join(hard[:8]))
     vresults = js.get("verification-results", {})
+    crashed = ("verification-results" not in js) or ("panicked at" in vr["raw_err"]) or (vr["rc"] not in (0, 1)) \
+        or (not vresults.get("success") and not errors)
+    if crashed:
+        res["undecided"].append("engine V [%s]: Verus ended abnormally (rc=%s, internal error or crash); no verdict\n%s" % (unit, vr["rc"], vr["raw_err"][-1500:]))
+        for name, inf in info.items():
+            res["units"].append(dict(engine="verus", kind="contract", unit=unit, function=name, path=inf["path"], status="not-checked", smt_ms=0,
+                                     clauses=inf["clauses"], loops=inf["loops"], has_contract=inf["has_contract"], tier="quick", bound="unbounded"))
+        return res
     for name, inf in info.items():
         short = name.split("::")[-1]
         full_candidates = [f for f in verdict if f.endswith("::" + short) or f == short]
@@ -341,6 +349,10 @@ def run_unit(scratch, prop, unit, exp, tier):
         if name in failed_fns:
             st = "failed"
         elif hard:
+            st = "not-checked"
+        elif full_candidates and not all(verdict.get(f, False) for f in full_candidates):
+            st = "failed"
+        elif not vresults.get("success") and not full_candidates:
             st = "not-checked"
         smt_ms = sum(smt.get(f, 0) for f in full_candidates)
         res["units"].append(dict(engine="verus", kind="contract", unit=unit, function=name, path=inf["path"], status=st, smt_ms=smt_ms,
